@@ -773,6 +773,33 @@ def family(name):
         cs.append(net.perc_eq((None,) * 4, (None,) * 4))
         net.family_constraints += cs
         return net
+    if name == "MAAG5":
+        # a 3-variable core (a, b, c) whose first two functions also read x; x <-> y is a switch.  Constrained so that the
+        # core has a motif-avoidant attractor when the switch is on and none when it is off (the core is GATED by x): the
+        # minimal trap spaces below the two switch nodes differ - unlike in a product
+        from . import specs
+        net = SymNet(5, wiring={0: (0, 1, 2, 3), 1: (0, 1, 2, 3), 2: (0, 1, 2), 3: (4,), 4: (3,)})
+        net.family_constraints += [net.trap((None, None, None, 0, 0)), net.trap((None, None, None, 1, 1))]
+
+        def core(val, tag):
+            o = SymNet.__new__(SymNet)
+            o.n, o.names = 3, list(NAMES[:3])
+            o.states = list(itertools.product((0, 1), repeat=3))
+            o.subspaces = list(itertools.product((0, 1, None), repeat=3))
+            o.tag = tag
+            o.defs, o.bits, o.family_constraints = [], net.bits, []
+            o.wiring = {j: (0, 1, 2) for j in range(3)}
+            o.F = {v: {x: net.F[v][x + (val, val)] for x in o.states} for v in range(3)}
+            o._build_atoms()
+            return o
+        on, off = core(1, "Gon"), core(0, "Goff")
+        net.family_constraints.append(fNot(specs.has_motif_avoidant(off)))
+        # ... and some fixed point of the switched-off core lies ON the motif-avoidant attractor of the switched-on core
+        # (so that the two switch nodes have minimal trap spaces whose projections overlap the other node's attractor)
+        net.family_constraints.append(fOr([fAnd([off.trap(p_), on.attr(p_), fNot(fOr([specs.is_mintrap(on, M) for M in on.subspaces if in_space(p_, M)]))])
+                                           for p_ in on.states]))
+        net.family_constraints += on.take_pending_defs() + off.take_pending_defs() + on.defs + off.defs
+        return net
     if name == "TWOATT3":
         # 3 variables, no trap space except the whole space, at least two attractors: a MINIMAL trap space that holds
         # more than one attractor (code that believes "one attractor per minimal trap space" is wrong here)
@@ -843,6 +870,18 @@ def component(name, tag):
         c.family_constraints.append(fOr([fAnd([c.attr(st), fNot(inmin(st))]) for st in c.states if st[0] == 1]))
         c.family_constraints += [z3.Implies(c.attr(st), inmin(st)) for st in c.states if st[0] == 0]
         c.family_constraints += c.take_pending_defs()
+        return c
+    if name == "NEST2":
+        # 2 variables with a trap space fixing one variable that is closed under percolation and contains a smaller trap
+        # space (a non-minimal inner node of the component's own diagram), nothing fixed at the root
+        c = SymNet(2, tag=tag)
+        alts = []
+        for S in c.subspaces:
+            if sum(1 for x in S if x is not None) == 1:
+                subs = [M for M in c.subspaces if all(x is not None for x in M) and refines(M, S)]
+                alts.append(fAnd([c.trap(S), c.perc_eq(S, S), fOr([c.trap(M) for M in subs])]))
+        c.family_constraints.append(fOr(alts))
+        c.family_constraints.append(c.perc_eq((None, None), (None, None)))
         return c
     if name == "RING3":
         # a ring a <- c, b <- a, c <- b with a stable motif that fixes all three variables at once
